@@ -2,7 +2,7 @@ package main
 
 // Case kind `hist`: a scripted history of request starts / ends, executed event by event on the REAL guns.
 //
-//	hist <keepalive> <sc> <max-idle-conns-per-host> <answer-bytes> <instances> <nev> {B<k>|E<k>}*nev
+//	hist <keepalive>[:<gun options>] <sc> <max-idle-conns-per-host> <answer-bytes> <instances> <nev> {B<k>|E<k>}*nev
 //
 // The gun configuration (disable-keep-alives, max-idle-conns-per-host, shared-client block sc = n | d<N> | e<N>) goes through
 // the real config decoder and the registered `http` gun factory; as the engine does, ONE extra gun runs WarmUp and its result
@@ -36,7 +36,6 @@ import (
 	"github.com/yandex/pandora/core"
 	"github.com/yandex/pandora/core/config"
 	"github.com/yandex/pandora/core/warmup"
-	"go.uber.org/zap"
 
 	"verifharness/internal/vh"
 )
@@ -48,7 +47,10 @@ func runHist(line string) string {
 	if len(f) < 7 {
 		return "badcase"
 	}
-	ka := f[1] == "1"
+	ka, opts, kaOK := parseKA(f[1])
+	if !kaOK {
+		return "badcase"
+	}
 	sc := f[2]
 	maxIdle, e1 := strconv.Atoi(f[3])
 	size, e2 := strconv.Atoi(f[4])
@@ -118,6 +120,7 @@ func runHist(line string) string {
 		"type": "http", "target": srv.Listener.Addr().String(),
 		"disable-keep-alives": !ka, "max-idle-conns-per-host": maxIdle,
 	}
+	opts.apply(gun)
 	if sc != "n" && len(sc) > 1 {
 		num, err := strconv.Atoi(sc[1:])
 		if err != nil {
@@ -137,7 +140,7 @@ func runHist(line string) string {
 	newGun := conf.Engine.Pools[0].NewGun
 	ctx, cancel := context.WithCancel(context.Background())
 	defer cancel()
-	logger := zap.NewNop()
+	logger := opts.logger()
 	var shared any
 	wgun, err := newGun()
 	if err != nil {
@@ -301,5 +304,9 @@ func genHist(r *vh.Rand) string {
 			toggle(k)
 		}
 	}
-	return fmt.Sprintf("hist %s %s %d %d %d %d %s", vh.B(ka), sc, maxIdle, size, n, len(evs), strings.Join(evs, " "))
+	kaf := vh.B(ka)
+	if o := genOptTokens(r, false); o != "" { // what Shoot does with the answer under these options must not cost the connection
+		kaf += ":" + o
+	}
+	return fmt.Sprintf("hist %s %s %d %d %d %d %s", kaf, sc, maxIdle, size, n, len(evs), strings.Join(evs, " "))
 }
